@@ -29,7 +29,7 @@ LEVEL_NOTE = ("Trusts TLC, the placement of hook H4, the harness's classificatio
               "double-precision ledger residuals; exhaustive only within the stated small scopes; the iteration budget decides non-termination "
               "(1e5 passes quick, 1e6 thorough, three orders above what a converging fit on <= 3x3 data needs).")
 
-PAR = int(os.environ.get("VERIF_PAR", "8"))
+PAR = int(os.environ.get("VERIF_PAR", "12"))
 UNGUARDED = ["PCA", "PLS", "CPCA"]
 
 
@@ -146,13 +146,14 @@ def build_cases(ctx, recs):
         if e["kind"] == "resp":
             for req in ([1, nc + 2] if idx % 2 == 0 else [nc]):
                 npc = min(req, nc)
+                kr = e["krank"]                         # exact number of latent variables (Krylov dimension) from TLC
                 if e["ycst"]:
-                    kind, rlo, rhi = "const-response", 0, 0
-                elif not e["cov"]:
-                    kind, rlo, rhi = "no-covariance", 0, rk
+                    kind = "const-response"
+                elif kr == 0:
+                    kind = "no-covariance"
                 else:
-                    kind, rlo, rhi = ("nlv-beyond-x-rank" if npc > rk else "nlv-within-x-rank"), 1, rk
-                add("PLS", kind, e, req, npc, rhi, rlo, noise, ys=list(e["y"]))
+                    kind = "nlv-beyond-rank" if npc > kr else "nlv-within-rank"
+                add("PLS", kind, e, req, npc, kr, kr, noise, ys=list(e["y"]))
             # two responses: y and its reverse (collinear / constant pairs included)
             y2 = list(reversed(e["y"]))
             c2 = cov.get((json.dumps(e["cells"]), tuple(y2)))
@@ -161,14 +162,15 @@ def build_cases(ctx, recs):
             if c2 is not None and idx % 2 == 0:
                 ycst = e["ycst"] and c2[1]
                 npc = nc
+                # two responses: only a lower bound on the number of latent variables is known (block Krylov dimension is not computed).
+                # LVCalc starts from ONE response column: if that column has no covariance with X the first weight vector is null
+                # although the other column may have some - then not even the first latent variable is claimed.
                 if ycst:
                     kind, rlo, rhi = "const-response", 0, 0
                 elif not (e["cov"] and c2[0]):
-                    # LVCalc starts from ONE response column: if that column has no covariance with X the first weight vector is
-                    # null although the other column may have some - whether a latent variable "exists" is then not decided here
-                    kind, rlo, rhi = "no-covariance", 0, rk
+                    kind, rlo, rhi = "no-covariance", 0, 0
                 else:
-                    kind, rlo, rhi = ("nlv-beyond-x-rank" if npc > rk else "nlv-within-x-rank"), 1, rk
+                    kind, rlo, rhi = ("nlv-beyond-rank" if npc > 1 else "nlv-within-rank"), 1, 1
                 ys = []
                 for i in range(nr):
                     ys += [e["y"][i], y2[i]]
@@ -190,7 +192,7 @@ def case_line(c):
     return " ".join(str(v) for v in t)
 
 
-NONTRIVIAL = lambda c: c["kind"] not in ("within-rank", "regular", "nlv-within-x-rank")
+NONTRIVIAL = lambda c: c["kind"] not in ("within-rank", "regular", "nlv-within-rank")
 
 
 # ---------------------------------------------------------------- (C)
@@ -298,7 +300,7 @@ def run(ctx):
         "hook H4 is called once per pass of the three while(1) loops with (t't | u'u, normaliser, convergence value); components returned without any pass are reported as `Null` by the harness",
         "non-termination of the real code is decided by an iteration budget (1e5 passes quick / 1e6 thorough) or, for routines without a hook, a 20 s wall-clock watchdog per child",
         "a returned component counts as zero-variance when its explained variance is <= 1e-9 percent (rounding noise left by deflation is ~1e-28); ledger residuals are computed by the harness in double precision, TLC compares them with TolAlg = 1e-8",
-        "PLS: the number of latent variables that exist is only bounded (first LV exists iff X_c'y_c # 0, at most rank X_c); TLC searches a consistent count",
+        "PLS: the exact number of latent variables (Krylov dimension of X_c'X_c, X_c'y_c) is computed by TLC for one response; for two responses only the first latent variable is claimed; past that count a returned component must be finite, nothing else (it may be built on rounding noise while X has rank left)",
         "ASan/UBSan build; every fit in its own forked child with one processor forced (hook H2)",
     ]
     model_check(ctx)
